@@ -520,6 +520,9 @@ func run(c *h.Check) {
 		}
 		c.Explore(rmScenario(m), bound, 100000, false)
 	}
+	for _, m := range pcases() {
+		c.Explore(pScenario(m), bound, 100000, false)
+	}
 	if c.Thorough() {
 		for _, s := range shapes(false) {
 			s.name += "/unbounded-pruned"
@@ -532,6 +535,11 @@ func replay(c *h.Check, rf *h.ReplayFile) []vrt.Violation {
 	for _, s := range append(shapes(true), deepShapes()...) {
 		if s.name == rf.Scenario || s.name+"/unbounded-pruned" == rf.Scenario {
 			return h.ReplaySchedule(scenario(s), rf)
+		}
+	}
+	for _, m := range pcases() {
+		if m.name() == rf.Scenario {
+			return h.ReplaySchedule(pScenario(m), rf)
 		}
 	}
 	for _, m := range rmcases(true) {
